@@ -822,6 +822,10 @@ fn parse_args() -> RunCfg {
 pub fn main() {
     let cfg = parse_args();
     engine::install_panic_hook();
+    if cfg.prop == "REFVAL" {
+        crate::props::refval(&cfg);
+        return;
+    }
     let cfg = Arc::new(cfg);
     let t0 = Instant::now();
     let work = crate::corpus::work_list(&cfg);
